@@ -123,6 +123,7 @@ Record cfg := {
   c_max_inodes : Z;
   c_max_size : Z;
   c_fatal : bool;                              (* ErrorOnFSErrors *)
+  c_abs : option bytes;                        (* StoreAbsolutePath: Some (absolute path of the scan root) *)
   c_cancel : cancel }.
 
 (* ------------------------------------------------------------------ gitignore *)
@@ -212,6 +213,14 @@ Definition should_skip_dir (c : cfg) (ms : list (option matcher)) (p : path) : b
   else if match c_re c with Some re => re p | None => false end then true
   else match c_glob c with Some g => g p | None => false end.
 
+(* r.Locations = expandAbsolutePath(wc.scanRoot, r.Locations): filepath.Join(root, l) for every location, once *)
+Definition join_root (root l : bytes) : bytes := match l with [] => root | _ => root ++ [47%N] ++ l end.
+Definition abs_pkg (c : cfg) (x : pkg) : pkg :=
+  match c_abs c with
+  | None => x
+  | Some root => {| p_name := p_name x; p_version := p_version x; p_locs := map (join_root root) (p_locs x) |}
+  end.
+
 (* FileRequired(wc.fileAPI): the lazy Stat of the FileAPI is fs.Stat(wc.fs, path) of the file being visited *)
 Definition req (c : cfg) (e : ext) (p : path) (size : Z) (ff : ffault) : bool :=
   c_required c e p &&
@@ -230,7 +239,7 @@ Definition run_extractor (c : cfg) (e : ext) (p : path) (ff : ffault) (st : stat
     | XPanic => WPanic st1 PcExtract                 (* no recover around Extract *)
     | XRes pk err =>
         let st2 := if err then add_error st1 e EkExtract p else st1 in
-        let st3 := match pk with [] => st2 | _ => add_results st2 e pk end in
+        let st3 := match pk with [] => st2 | _ => add_results st2 e (map (abs_pkg c) pk) end in
         WOk st3 Continue
     end.
 
